@@ -340,3 +340,86 @@ Example ex_find_node_own_id :
   dht_find_node_reply false true 5 7 9 (Some (repeat 0 19 ++ [5] ++ [127;0;0;3;3;235] ++ repeat 0 19 ++ [6] ++ [127;0;0;4;3;236]))
   = FnQueries [(6, A4 2130706436 1004)].
 Proof. vm_compute. reflexivity. Qed.
+
+(* ------------------------------------------------------------------ compact node records *)
+Ltac Zify.zify_post_hook ::= Z.div_mod_to_equations.
+
+(* the whole 26-byte compact node records (id, IPv4 address, port), in order, nothing else *)
+Definition mk_node (l : bytes) : N * addr :=
+  (be_value (firstn 20 l) 0, A4 (be_value (firstn 4 (skipn 20 l)) 0) (be_value (firstn 2 (skipn 24 l)) 0)).
+
+Fixpoint spec_nodes (fuel : nat) (l : bytes) : list (N * addr) :=
+  match fuel with
+  | O => []
+  | S f => if (length l <? 26)%nat then [] else mk_node l :: spec_nodes f (skipn 26 l)
+  end.
+
+Lemma copy_nodes_spec : forall fuel rest pre acc,
+  (length rest < fuel)%nat ->
+  copy_nodes fuel (pre ++ rest) (blen pre) (blen pre + (blen rest - blen rest mod 26)) acc
+  = POk (rev acc ++ spec_nodes fuel rest).
+Proof.
+  induction fuel as [|fuel IH]; intros rest pre acc Hf; [lia|].
+  cbn [copy_nodes spec_nodes].
+  destruct (Nat.ltb_spec (length rest) 26) as [Hs|Hs].
+  - assert (E : blen rest mod 26 = blen rest) by (apply N.mod_small; unfold blen; lia).
+    rewrite E, N.sub_diag, N.add_0_r, N.eqb_refl, app_nil_r. reflexivity.
+  - remember (blen pre + (blen rest - blen rest mod 26)) as endp eqn:Hendp.
+    assert (Hne : (blen pre =? endp) = false) by (apply N.eqb_neq; subst endp; unfold blen in *; lia).
+    rewrite Hne.
+    destruct (split3 rest 20 6) as (Hd & HA & HQ); [lia|].
+    remember (firstn 20 rest) as A eqn:HeqA. remember (firstn 6 (skipn 20 rest)) as Q eqn:HeqQ.
+    remember (skipn (20 + 6) rest) as R eqn:HeqR.
+    destruct (split3 Q 4 2) as (Hq & HB & HP); [lia|].
+    remember (firstn 4 Q) as B eqn:HeqB. remember (firstn 2 (skipn 4 Q)) as P eqn:HeqP.
+    assert (HQ6 : skipn (4 + 2) Q = []) by (apply skipn_all2; lia).
+    rewrite HQ6, app_nil_r in Hq.
+    assert (Hbuf : pre ++ rest = pre ++ A ++ B ++ P ++ R).
+    { rewrite Hd at 1. rewrite Hq. rewrite <- !app_assoc. reflexivity. }
+    assert (R1 : rd_be (pre ++ rest) (blen pre) 20 0 = Some (be_value A 0)).
+    { rewrite Hbuf. replace 20%nat with (length A) by exact HA. apply rd_be_app. }
+    assert (R2 : rd_be (pre ++ rest) (blen pre + 20) 4 0 = Some (be_value B 0)).
+    { rewrite Hbuf. rewrite (app_assoc pre A).
+      replace (blen pre + 20) with (blen (pre ++ A)) by (rewrite blen_app; unfold blen at 2; rewrite HA; reflexivity).
+      replace 4%nat with (length B) by exact HB. apply rd_be_app. }
+    assert (R3 : rd_be (pre ++ rest) (blen pre + 24) 2 0 = Some (be_value P 0)).
+    { rewrite Hbuf. rewrite (app_assoc pre A), (app_assoc (pre ++ A) B).
+      replace (blen pre + 24) with (blen ((pre ++ A) ++ B))
+        by (rewrite !blen_app; unfold blen at 2 3; rewrite HA, HB; lia).
+      replace 2%nat with (length P) by exact HP. apply rd_be_app. }
+    rewrite R1, R2, R3. unfold node_record_size.
+    assert (Hbuf2 : pre ++ rest = (pre ++ A ++ B ++ P) ++ R) by (rewrite Hbuf, <- !app_assoc; reflexivity).
+    assert (Hlen : blen (pre ++ A ++ B ++ P) = blen pre + 26).
+    { rewrite !blen_app. unfold blen at 2 3 4. rewrite HA, HB, HP. lia. }
+    assert (HR : blen rest = 26 + blen R).
+    { rewrite Hd at 1. rewrite !blen_app. unfold blen at 1 2. rewrite HA, HQ. lia. }
+    assert (Hend : endp = blen (pre ++ A ++ B ++ P) + (blen R - blen R mod 26)) by (subst endp; rewrite Hlen, HR; lia).
+    rewrite Hend, <- Hlen, Hbuf2, IH.
+    + cbn [rev]. rewrite <- app_assoc. cbn [app]. unfold mk_node.
+      rewrite <- HeqA.
+      assert (E4 : firstn 4 (skipn 20 rest) = B).
+      { rewrite HeqB, HeqQ. rewrite firstn_firstn. reflexivity. }
+      assert (E2 : firstn 2 (skipn 24 rest) = P).
+      { rewrite HeqP, HeqQ. change 6%nat with (4 + 2)%nat. rewrite <- firstn_skipn_comm.
+        rewrite firstn_firstn. rewrite skipn_skipn. reflexivity. }
+      rewrite E4, E2, HeqR. reflexivity.
+    + rewrite HeqR, skipn_length. lia.
+Qed.
+
+Lemma compact_nodes_exact : forall buf, parse_compact_nodes buf = POk (spec_nodes (S (length buf)) buf).
+Proof.
+  intro buf. unfold parse_compact_nodes, node_record_size.
+  pose proof (copy_nodes_spec (S (length buf)) buf [] []) as H.
+  cbn [app rev] in H. unfold blen at 1 2 in H. cbn [length] in H.
+  change (N.of_nat 0) with 0 in H. rewrite !N.add_0_l in H. apply H. lia.
+Qed.
+
+(* a matched reply never makes the server read outside the `nodes` string *)
+Lemma find_node_reply_never_faults : forall announce matched own target resp nodes,
+  dht_find_node_reply announce matched own target resp nodes <> FnFault.
+Proof.
+  intros announce matched own target resp nodes. unfold dht_find_node_reply.
+  destruct (negb matched); [discriminate|]. destruct nodes as [b|]; [|discriminate].
+  rewrite compact_nodes_exact.
+  destruct (firstn search_concurrency _); [destruct announce; discriminate|discriminate].
+Qed.
